@@ -191,10 +191,10 @@ pub fn dur_accessors() {
     let (s, n) = sym_dur();
     let total = dur_total(s, n); // nanoseconds, exact
     let d = Duration::new(s, n).unwrap();
-    let h = vf::get_hours(CelValue::Duration(d), vec![]);
-    let m = vf::get_minutes(CelValue::Duration(d), vec![]);
-    let sec = vf::get_seconds(CelValue::Duration(d), vec![]);
-    let ms = vf::get_milliseconds(CelValue::Duration(d), vec![]);
+    let h = vf::get_hours(CelValue::Duration(d), vec![CelValue::Null]);
+    let m = vf::get_minutes(CelValue::Duration(d), vec![CelValue::Null]);
+    let sec = vf::get_seconds(CelValue::Duration(d), vec![CelValue::Null]);
+    let ms = vf::get_milliseconds(CelValue::Duration(d), vec![CelValue::Null]);
     witness!(total < 0 && n != 0, "negative duration with a fraction");
     witness!(total > 0, "positive duration");
     let whole = |v: &CelValue, unit: i128, what: &'static str| match v {
